@@ -238,12 +238,12 @@ theorem step_good (s : St) (op : Op) (hg : ∀ ec ∈ s.ecs, Good s.typeCheck ec
     split
     · split <;> exact hg
     · exact hg
-  | setAlarm i =>
+  | setAlarm i rp =>
     simp only [step, setAlarm]
     split
     · exact hg
     · split <;> exact hg
-  | clearAlarm i =>
+  | clearAlarm i rp =>
     simp only [step, clearAlarm]
     split
     · exact hg
@@ -278,12 +278,12 @@ theorem step_typeCheck (s : St) (op : Op) : (step s op).1.typeCheck = s.typeChec
     split
     · split <;> rfl
     · rfl
-  | setAlarm i =>
+  | setAlarm i rp =>
     simp only [step, setAlarm]
     split
     · rfl
     · split <;> rfl
-  | clearAlarm i =>
+  | clearAlarm i rp =>
     simp only [step, clearAlarm]
     split
     · rfl
@@ -447,12 +447,12 @@ theorem step_builtins (s : St) (op : Op) (hb : BuiltinsOk s) : BuiltinsOk (step 
     split
     · split <;> exact hb
     · exact hb
-  | setAlarm i =>
+  | setAlarm i rp =>
     simp only [step, setAlarm]
     split
     · exact hb
     · split <;> exact hb
-  | clearAlarm i =>
+  | clearAlarm i rp =>
     simp only [step, clearAlarm]
     split
     · exact hb
@@ -487,6 +487,15 @@ theorem clear_alarm_reports (s : St) (i : Id) (a : Alarm) (h : s.findAlarm i = s
   unfold clearAlarm clearReports
   simp only [h]
   cases a.set <;> cases a.enabled <;> simp
+
+/-- **Whether the host answers the S5F1 does not matter**: state and reports of `set_alarm`/`clear_alarm` are the same with an
+S5F2 within T3 and with none — the alarm is latched because the equipment-side change happened; hence `set_alarm_reports` /
+`clear_alarm_reports` (stated for the answered case) hold for the unanswered case too, and a repeated `set_alarm` after an
+unanswered report sends no second S5F1. -/
+theorem alarm_reply_independent (s : St) (i : Id) (r1 r2 : Bool) :
+    setAlarm s i r1 = setAlarm s i r2 ∧ clearAlarm s i r1 = clearAlarm s i r2 := ⟨rfl, rfl⟩
+
+example : (setAlarm (setAlarm (s5f3 (s0 false) 128 (.nums [7])).1 (.nums [7]) false).1 (.nums [7]) true).2 = .ok [] := by decide +kernel
 
 /-- an unknown alarm id raises and changes nothing -/
 theorem alarm_unknown (s : St) (i : Id) (h : s.findAlarm i = none) :
